@@ -15,7 +15,8 @@ L = lambda *xs: ["list"] + list(xs)
 # known library defects found by this check (fixes/text2_findings.json); excluded by construction while their tag is active
 T_NEGINF = "neginf_pow_base"        # str(pow(-oo, x)) == "-oo**x": Precedence treats -oo as an atom
 T_RECIP = "pow_of_reciprocal"       # (24/a)**(2/3) holds (a**-1)**(2/3), which pow() itself rewrites to a**(-2/3)
-KNOWN = [(T_NEGINF, tr.has_neginf_base), (T_RECIP, tr.has_pow_of_reciprocal)]
+T_NESTED = "nested_add_unit_coef"    # sin(-y - (1 + x)) == -sin(y + (1 + x)): an Add term that is an Add with coefficient 1
+KNOWN = [(T_NEGINF, tr.has_neginf_base), (T_RECIP, tr.has_pow_of_reciprocal), (T_NESTED, tr.has_nested_add_unit)]
 
 
 def fixed_recipes():
@@ -100,7 +101,7 @@ class C16(Check):
                    "coefficient or leaf) are skipped: re-parsing may drop the zero or its sign, no non-zero digit changes",
                    "a non-ParseError exception while re-evaluating the parsed string is a skip",
                    "exact sub-results stay below ~10**400 by construction"]
-    tiers = {"quick": {"examples": 2600}, "thorough": {"examples": 120000}}
+    tiers = {"quick": {"examples": 2000}, "thorough": {"examples": 60000}}
     batch = 6
 
     def enumerate(self, tier):
